@@ -107,11 +107,36 @@ Inductive reach : cfg -> Prop :=
 Definition holds (E : list entry) (c : cfg) : Prop :=
   exists ch, sub ch (c_fly c) /\ forall e, In e E <-> In e (concat (c_ack c) ++ concat ch).
 
+(* every timestamp in the store is at most state.seq_no: the next write gets a larger one *)
+Definition seq_ok (v : vstate) : Prop := forall e, In e (all_entries v) -> ets e <= v_seq v.
+
 Definition inv (c : cfg) : Prop :=
   match c_v c with
-  | Some v => Run (c_fs c) v /\ holds (all_entries v) c
+  | Some v => Run (c_fs c) v /\ holds (all_entries v) c /\ seq_ok v
   | None => exists E, Good (c_fs c) E /\ holds E c
   end.
+
+Lemma max_ts_ge e l : In e l -> ets e <= max_ts l.
+Proof.
+  unfold max_ts. induction l as [|x l IH]; [intros []|]. cbn [fold_right]. intros [<-|H]; [lia|]. specialize (IH H). lia.
+Qed.
+
+Lemma seq_ok_open s : seq_ok (snd (fst (open_prog s))).
+Proof.
+  unfold open_prog. destruct (recover_calls _ _) as [c3 rec]. cbn [fst snd].
+  intros e He. unfold all_entries in He. cbn [v_mem v_files v_seq app] in *.
+  apply max_ts_ge in He. lia.
+Qed.
+
+Lemma seq_ok_next v o : accepted v o -> seq_ok v -> seq_ok (op_next v o).
+Proof.
+  intros Ha Hs e He. apply (all_entries_next v o Ha e) in He. apply in_app_or in He.
+  assert (Hle : v_seq v <= v_seq (op_next v o)) by (destruct o; cbn [op_next v_seq]; lia).
+  destruct He as [He|He].
+  - specialize (Hs e He). lia.
+  - destruct o as [b| |gc ins outs]; cbn [op_batch] in He; try destruct He.
+    unfold batch_entries in He. apply in_map_iff in He. destruct He as (kv & <- & _). cbn [op_next v_seq ets]. lia.
+Qed.
 
 Lemma good_empty : Good [] [].
 Proof.
@@ -129,7 +154,7 @@ Proof.
   - (* open *)
     destruct Hi as (E & Hg & (ch & Hsub & HE)).
     destruct (open_walk (c_fs c) E Hg) as [[_ (s'' & Hr' & HR & Hent)] _].
-    rewrite Hr in Hr'. inversion Hr'; subst s''. split; [exact HR|].
+    rewrite Hr in Hr'. inversion Hr'; subst s''. split; [exact HR|]. split; [|apply seq_ok_open].
     exists ch. cbn [c_ack c_fly]. split; [exact Hsub|]. intros e. rewrite Hent. apply HE.
   - (* crash during recovery *)
     destruct Hi as (E & Hg & Hh).
@@ -137,14 +162,14 @@ Proof.
     destruct (Hp k img Hc) as [Hrec|(p & Hp' & _)]; [|discriminate].
     exists E. split; [eapply rec_good_image; eauto|exact Hh].
   - (* an operation completes *)
-    destruct Hi as [HR (ch & Hsub & HE)].
-    destruct (op_walk (c_fs c) v o HR Ha) as [_ Hq]. split; [now apply (Hq s' Hr)|].
+    destruct Hi as (HR & (ch & Hsub & HE) & Hseq).
+    destruct (op_walk (c_fs c) v o HR Ha) as [_ Hq]. split; [now apply (Hq s' Hr)|]. split; [|now apply seq_ok_next].
     exists ch. cbn [c_ack c_fly]. split; [exact Hsub|]. intros e. rewrite (all_entries_next v o Ha e). unfold ack_next.
     destruct (op_batch v o) as [p|].
     + rewrite concat_app. cbn [concat]. rewrite app_nil_r, !in_app_iff, (HE e), in_app_iff. tauto.
     + rewrite app_nil_r. apply HE.
   - (* crash during an operation *)
-    destruct Hi as [HR (ch & Hsub & HE)].
+    destruct Hi as (HR & (ch & Hsub & HE) & _).
     destruct (op_walk (c_fs c) v o HR Ha) as [Hp _].
     destruct (Hp k img Hc) as [Hrec|(p & Hp' & Hrec)].
     + exists (all_entries v). split; [eapply rec_good_image; eauto|].
@@ -153,7 +178,7 @@ Proof.
       exists (ch ++ [p]). cbn [c_ack c_fly]. unfold ack_next. rewrite Hp'. split; [now apply sub_app_keep|].
       intros e. rewrite concat_app. cbn [concat]. rewrite app_nil_r, !in_app_iff, (HE e), in_app_iff. tauto.
   - (* crash while idle *)
-    destruct Hi as [HR Hh]. pose proof (run_good _ _ HR) as Hg.
+    destruct Hi as (HR & Hh & _). pose proof (run_good _ _ HR) as Hg.
     destruct (good_safe _ _ None Hg img Hc) as [Hrec|(p & Hp' & _)]; [|discriminate].
     exists (all_entries v). split; [eapply rec_good_image; eauto|exact Hh].
 Qed.
@@ -184,7 +209,15 @@ Theorem open_store_contents c v : reach c -> c_v c = Some v ->
   Run (c_fs c) v /\ exists ch, sub ch (c_fly c) /\
     forall e, In e (all_entries v) <-> In e (concat (c_ack c) ++ concat ch).
 Proof.
-  intros Hr Hv. pose proof (inv_reach c Hr) as Hi. unfold inv in Hi. rewrite Hv in Hi. exact Hi.
+  intros Hr Hv. pose proof (inv_reach c Hr) as Hi. unfold inv in Hi. rewrite Hv in Hi. tauto.
+Qed.
+
+(* the sequence number of the next write is larger than every timestamp the store holds *)
+Theorem sequence_numbers_fresh c v : reach c -> c_v c = Some v ->
+  forall e, In e (all_entries v) -> ets e < v_seq v + 1.
+Proof.
+  intros Hr Hv e He. pose proof (inv_reach c Hr) as Hi. unfold inv in Hi. rewrite Hv in Hi.
+  destruct Hi as (_ & _ & Hs). specialize (Hs e He). lia.
 Qed.
 
 (* ------------------------------------------------------------------ the executable reading of an image *)
